@@ -4,8 +4,8 @@ require that the seeded property's own check reports a violation (static checks 
 once by seedcheck.sh when the seed was kept).  Usage: python3 selftest/seeds_regress.py [name-prefix...]"""
 import json, os, subprocess, sys
 
-WT = "/tmp/pg-selftest-wt"
-EVID = "/tmp/pg-selftest-evid"
+WT = os.environ.get("PG_SEEDS_WT", "/tmp/pg-selftest-wt")
+EVID = WT + "-evid"
 SEEDS = "/verif/seeded"
 
 
